@@ -5,11 +5,19 @@ import sys
 
 pid = sys.argv[1]
 wt = sys.argv[2]
+rnd = sys.argv[3] if len(sys.argv) > 3 else ""      # round tag, e.g. r2
+import glob, os
+taken = []
+for d in sorted(glob.glob("/verif/seeded/%s-*" % pid)):
+    try:
+        taken.append(json.load(open(os.path.join(d, "meta.json"))).get("summary", "")[:300].replace("\n", " "))
+    except Exception:
+        pass
 for l in open('/verif/properties.jsonl'):
     p = json.loads(l)
     if p['id'] == pid:
         break
-print(f"""You are given a scratch git worktree of the Go repository lopolopen/shoot (a `go generate` toolkit: sub-commands new / enum / rest / map that emit constructors, accessors, enum helpers, REST clients and struct mappers, plus a small runtime package) at {wt}. Work ONLY inside {wt} (and scratch directories under /tmp/seedwork-{pid}/ that you create); never touch /repo or /verif, and do not read /verif.
+print(f"""You are given a scratch git worktree of the Go repository lopolopen/shoot (a `go generate` toolkit: sub-commands new / enum / rest / map that emit constructors, accessors, enum helpers, REST clients and struct mappers, plus a small runtime package) at {wt}. Work ONLY inside {wt} (and scratch directories under /tmp/seedwork-{pid}{rnd}/ that you create); never touch /repo or /verif, and do not read /verif.
 
 Go environment for every shell call: `export GOFLAGS=-mod=mod GOPROXY=off; unset GOTOOLCHAIN GOSUMDB` (offline sandbox; the repo builds and its tests pass with `go test -vet=off -count=1 ./...` run in {wt}).
 
@@ -19,9 +27,10 @@ Here is a semantic property that the repository is supposed to satisfy:
   Statement: {p['statement']}
   Quantified over: {p['quantifier']['text']}
 
+{("Two changes were already produced for this property by someone else; do something DIFFERENT in mechanism and location (another code site, another input feature, another sub-command flag, a runtime/ordering/crash aspect instead of a pure data bug, ...). Already taken:" + chr(10) + chr(10).join("  - " + t for t in taken) + chr(10)) if taken and rnd else ""}
 Your task: produce TWO different, independent, realistic changes (bugs a developer could plausibly introduce in a refactoring or feature change) to the repository's non-test source code (Go files or .tmpl templates; not tests, not testdata, not goldens) such that, for each change separately:
   1. the repository still compiles (`go build ./...`) and the ENTIRE existing test suite still passes unchanged (`go test -vet=off -count=1 ./...`);
   2. the property above is violated for SOME input, but NOT in ordinary, first-try use: the violation must need something specific to manifest — an unusual input shape, a particular combination of flags/directives, a multi-step sequence of operations, a boundary value, or two cooperating code sites that each look fine alone. A change that breaks the common path (e.g. the README example) is not wanted;
-  3. you have a demonstration: a small self-contained Go test or program + shell script (`demo.sh`) that, when run against a checkout of the repository, exits 0 (prints PASS) on the ORIGINAL code and exits non-zero (prints FAIL) on the changed code. The demo runs the real `shoot` binary built from the checkout given as `$1` (e.g. `cd $1 && go build -o /tmp/seedwork-{pid}/shoot ./cmd/shoot`) and/or links the repository's runtime package via a scratch module with `replace github.com/lopolopen/shoot => $1` (copy `$1/go.sum` next to the scratch go.mod; use `go 1.24.0` + `toolchain go1.24.6` in that go.mod). A scratch module that runs the shoot binary on a package must itself be such a module. Keep the demo fast (< 60 s) and offline.
+  3. you have a demonstration: a small self-contained Go test or program + shell script (`demo.sh`) that, when run against a checkout of the repository, exits 0 (prints PASS) on the ORIGINAL code and exits non-zero (prints FAIL) on the changed code. The demo runs the real `shoot` binary built from the checkout given as `$1` (e.g. `cd $1 && go build -o /tmp/seedwork-{pid}{rnd}/shoot ./cmd/shoot`) and/or links the repository's runtime package via a scratch module with `replace github.com/lopolopen/shoot => $1` (copy `$1/go.sum` next to the scratch go.mod; use `go 1.24.0` + `toolchain go1.24.6` in that go.mod). A scratch module that runs the shoot binary on a package must itself be such a module. Keep the demo fast (< 60 s) and offline.
 
-Deliver, for k = 1, 2: `/tmp/seedwork-{pid}/change<k>/patch.diff` (output of `git diff` in the worktree for that change alone, applicable with `git apply` to the original commit), `/tmp/seedwork-{pid}/change<k>/demo.sh` (+ any files it needs, in the same directory; it takes the path of a repository checkout as its first argument) and `/tmp/seedwork-{pid}/change<k>/meta.json` with keys: "property" ("{pid}"), "summary" (what the change does), "needs" (what specific circumstance is needed for the violation to manifest), "files" (changed files), "verified" (the commands you ran and their outcome). After producing each patch, reset the worktree (`git -C {wt} checkout -- .`) so the two patches are independent, and at the end leave the worktree clean. Verify everything yourself before reporting: build, full test suite with the patch applied, demo PASS on the original, demo FAIL with the patch. In your final message list the two changes with a one-paragraph description each.""")
+Deliver, for k = 1, 2: `/tmp/seedwork-{pid}{rnd}/change<k>/patch.diff` (output of `git diff` in the worktree for that change alone, applicable with `git apply` to the original commit), `/tmp/seedwork-{pid}{rnd}/change<k>/demo.sh` (+ any files it needs, in the same directory; it takes the path of a repository checkout as its first argument) and `/tmp/seedwork-{pid}{rnd}/change<k>/meta.json` with keys: "property" ("{pid}"), "summary" (what the change does), "needs" (what specific circumstance is needed for the violation to manifest), "files" (changed files), "verified" (the commands you ran and their outcome). After producing each patch, reset the worktree (`git -C {wt} checkout -- .`) so the two patches are independent, and at the end leave the worktree clean. Verify everything yourself before reporting: build, full test suite with the patch applied, demo PASS on the original, demo FAIL with the patch. In your final message list the two changes with a one-paragraph description each.""")
